@@ -407,7 +407,13 @@ impl ExpressionParser {
                             Operator::Assign => 16,
                             Operator::AssignUndefined => 16,
                         };
-                        if prio <= best_idx_prio {
+                        // Binary operators of equal priority group left to right (the leftmost is folded first);
+                        // the prefix '!' and the assignments nest to the right.
+                        let right_to_left = matches!(
+                            operator,
+                            Operator::Not | Operator::Assign | Operator::AssignUndefined
+                        );
+                        if prio < best_idx_prio || (right_to_left && prio == best_idx_prio) {
                             best_idx = si;
                             best_idx_prio = prio;
                         }
